@@ -2459,6 +2459,13 @@ func TestVerifWireMcp(t *testing.T) {
 				}
 			}
 		}
+		// capabilities: clone shares nothing mutable (every cell set; then random subsets per case)
+		step = newCase("capabilities-clone")
+		for _, kind := range []string{"client", "server"} {
+			op, tags := genCapsOp(r, kind, true)
+			step(op, tags...)
+			step("caps.clone "+kind, "caps:clone", "caps:"+kind, "caps-cells:0")
+		}
 		// ToolAnnotations: every combination of the four hints x title, under both encodings
 		step = newCase("tool-annotations")
 		for _, compat := range []string{"0", "1"} {
@@ -2746,6 +2753,10 @@ func TestVerifWireMcp(t *testing.T) {
 				step("sse.lines "+ls, ltags...)
 				nd, ndtags := genNdStream(r, iog)
 				step("nd.split "+nd, ndtags...)
+			}
+			if c%4 == 0 {
+				op, tags := genCapsOp(r, []string{"client", "server"}[r.Intn(2)], false)
+				step(op, tags...)
 			}
 			// multi round trip: what the retried request carries
 			{
